@@ -790,3 +790,7 @@ silent("c17-summary-type-test-as-early-continue", "C17",
      (SUMM, "		if continuousVestingAccount, ok := vestingAccount.(*vestingtypes.ContinuousVestingAccount); ok {\n			lockedCoins := continuousVestingAccount.LockedCoins(ctx.BlockTime())", "		continuousVestingAccount, ok := vestingAccount.(*vestingtypes.ContinuousVestingAccount)\n		if !ok {\n			continue\n		}\n		{\n			lockedCoins := continuousVestingAccount.LockedCoins(ctx.BlockTime())"))
 fire("c20-pubkey-address-of-decoded-key", "C20", ["C20.inventory"],
      (CRACC, "	err = newAccount.SetPubKey(pk)\n", "	if pk == nil || !accAddress.Equals(sdk.AccAddress(pk.Address())) {\n		return nil, sdkerrors.ErrInvalidPubKey\n	}\n	err = newAccount.SetPubKey(pk)\n"))
+
+# ---------------- listing getters ----------------
+fire("c12-getall-skips-empty-owner", "C12", ["C12.getall"],
+     ("x/cfevesting/keeper/account_vesting_pools.go", "		k.cdc.MustUnmarshal(iterator.Value(), &val)\n", "		k.cdc.MustUnmarshal(iterator.Value(), &val)\n		if len(val.VestingPools) == 0 {\n			continue\n		}\n"))
